@@ -404,15 +404,17 @@ fn structural(kind: &'static str, fs: &Fs, f: &str, content: &str, its: &[Item],
             let text = &content[it.lo..it.hi];
             let eq = text.find('=')?;
             let depth = rng.range(1, 3);
-            let mut decls = format!("type {}__w0 {}", name, &text[eq..]);
+            // a fresh stem per application: wrapping twice must not produce `type X__w0 = X__w0`
+            let name_w = format!("{}_{:x}", name, rng.next() & 0xffff);
+            let mut decls = format!("type {}__w0 {}", name_w, &text[eq..]);
             if !decls.trim_end().ends_with(';') {
                 decls.push(';');
             }
             for d in 1..depth {
-                decls.push_str(&format!("\ntype {}__w{} = {}__w{};", name, d, name, d - 1));
+                decls.push_str(&format!("\ntype {}__w{} = {}__w{};", name_w, d, name_w, d - 1));
             }
             let head = &text[..eq];
-            let new_text = format!("{}\n{}= {}__w{};", decls, head, name, depth - 1);
+            let new_text = format!("{}\n{}= {}__w{};", decls, head, name_w, depth - 1);
             one(kind, f, splice(content, it.lo, it.hi, &new_text))
         }
         "flip_primitive" => {
@@ -503,4 +505,99 @@ fn damage(kind: &'static str, f: &str, content: &str, rng: &mut Rng) -> Option<E
         }
         _ => None,
     }
+}
+
+// ---------------------------------------------------------------------------------------------
+// Input feature used to identify known finding KF-C04-4: a type-alias cycle with no type
+// constructor in between (`type A = A`, `type A = B; type B = A`, `type A = A | "x"`).
+// ---------------------------------------------------------------------------------------------
+fn direct_refs(t: &TsType, out: &mut Vec<String>) {
+    match t {
+        TsType::TsTypeRef(r) => {
+            if let TsEntityName::Ident(i) = &r.type_name {
+                out.push(i.sym.to_string());
+            }
+        }
+        TsType::TsUnionOrIntersectionType(TsUnionOrIntersectionType::TsUnionType(u)) => {
+            for m in &u.types {
+                direct_refs(m, out);
+            }
+        }
+        TsType::TsUnionOrIntersectionType(TsUnionOrIntersectionType::TsIntersectionType(u)) => {
+            for m in &u.types {
+                direct_refs(m, out);
+            }
+        }
+        TsType::TsParenthesizedType(p) => direct_refs(&p.type_ann, out),
+        TsType::TsTypeOperator(o) => direct_refs(&o.type_ann, out),
+        TsType::TsIndexedAccessType(i) => direct_refs(&i.obj_type, out),
+        TsType::TsOptionalType(o) => direct_refs(&o.type_ann, out),
+        _ => {}
+    }
+}
+
+pub fn noncontractive_alias_cycle(fs: &Fs) -> Option<(String, String)> {
+    use std::collections::{BTreeMap, BTreeSet};
+    // (file, alias) -> direct refs ; (file, local) -> (spec, original)
+    let mut aliases: BTreeMap<(String, String), Vec<String>> = BTreeMap::new();
+    let mut imports: BTreeMap<(String, String), (String, String)> = BTreeMap::new();
+    for (path, content) in fs {
+        let cm: Lrc<SourceMap> = Default::default();
+        let fm = cm.new_source_file(FileName::Custom(path.to_string()).into(), content.to_string());
+        let mut errs = vec![];
+        let Ok(m) = parse_file_as_module(&fm, Syntax::Typescript(syntax_for(path)), EsVersion::latest(), None, &mut errs) else { continue };
+        for it in &m.body {
+            let decl = match it {
+                ModuleItem::ModuleDecl(ModuleDecl::ExportDecl(e)) => Some(&e.decl),
+                ModuleItem::Stmt(Stmt::Decl(d)) => Some(d),
+                _ => None,
+            };
+            if let Some(Decl::TsTypeAlias(a)) = decl {
+                let mut refs = vec![];
+                direct_refs(&a.type_ann, &mut refs);
+                // later declarations of the same name win in beff's symbol tables
+                aliases.insert((path.clone(), a.id.sym.to_string()), refs);
+            }
+            if let ModuleItem::ModuleDecl(ModuleDecl::Import(i)) = it {
+                for s in &i.specifiers {
+                    if let ImportSpecifier::Named(n) = s {
+                        let orig = match &n.imported {
+                            Some(ModuleExportName::Ident(x)) => x.sym.to_string(),
+                            _ => n.local.sym.to_string(),
+                        };
+                        imports.insert((path.clone(), n.local.sym.to_string()), (i.src.value.to_string_lossy().to_string(), orig));
+                    }
+                }
+            }
+        }
+    }
+    let target = |file: &str, name: &str| -> Option<(String, String)> {
+        if aliases.contains_key(&(file.to_string(), name.to_string())) {
+            return Some((file.to_string(), name.to_string()));
+        }
+        let (spec, orig) = imports.get(&(file.to_string(), name.to_string()))?;
+        let g = crate::host::resolve_in(fs, file, spec)?;
+        if aliases.contains_key(&(g.clone(), orig.clone())) {
+            Some((g, orig.clone()))
+        } else {
+            None
+        }
+    };
+    for start in aliases.keys() {
+        let mut seen: BTreeSet<(String, String)> = BTreeSet::new();
+        let mut todo = vec![start.clone()];
+        while let Some(n) = todo.pop() {
+            for r in aliases.get(&n).map(|v| v.as_slice()).unwrap_or(&[]) {
+                if let Some(t) = target(&n.0, r) {
+                    if t == *start {
+                        return Some(start.clone());
+                    }
+                    if seen.insert(t.clone()) {
+                        todo.push(t);
+                    }
+                }
+            }
+        }
+    }
+    None
 }
